@@ -96,6 +96,7 @@ type jsonField struct {
 	omitEmpty bool
 	quoted    bool
 	embedded  bool
+	tagged    bool
 }
 
 func jsonFields(st *types.Struct) []jsonField {
@@ -107,7 +108,7 @@ func jsonFields(st *types.Struct) []jsonField {
 			continue
 		}
 		name, opts, _ := strings.Cut(tag, ",")
-		jf := jsonField{index: k, typ: f.Type()}
+		jf := jsonField{index: k, typ: f.Type(), tagged: name != ""}
 		for _, o := range strings.Split(opts, ",") {
 			switch o {
 			case "omitempty":
@@ -135,6 +136,42 @@ func jsonFields(st *types.Struct) []jsonField {
 		}
 		jf.name = name
 		out = append(out, jf)
+	}
+	// encoding/json's rule for several fields with the same JSON name at the
+	// same depth: a single tagged one wins, otherwise all of them are dropped
+	byName := map[string][]int{}
+	for k, f := range out {
+		if !f.embedded {
+			byName[f.name] = append(byName[f.name], k)
+		}
+	}
+	drop := map[int]bool{}
+	for _, ks := range byName {
+		if len(ks) < 2 {
+			continue
+		}
+		tagged := -1
+		nTagged := 0
+		for _, k := range ks {
+			if out[k].tagged {
+				tagged = k
+				nTagged++
+			}
+		}
+		for _, k := range ks {
+			if !(nTagged == 1 && k == tagged) {
+				drop[k] = true
+			}
+		}
+	}
+	if len(drop) > 0 {
+		var kept []jsonField
+		for k, f := range out {
+			if !drop[k] {
+				kept = append(kept, f)
+			}
+		}
+		out = kept
 	}
 	return out
 }
